@@ -3,7 +3,7 @@
 (* sequences): re-executes every yielded frame on the Gear102 bus model,      *)
 (* checks the logged answers and projected state against the model            *)
 (* (environment check) and evaluates the property clauses at the end.         *)
-EXTENDS Gear102, CommClauses, Json, IOUtils, SequencesExt
+EXTENDS Gear102, CommClauses, QueryClauses, Json, IOUtils
 
 Recs == ndJsonDeserialize(IOEnv.SHARD)
 
@@ -86,7 +86,26 @@ Verdict(r) ==
                      ELSE ""
            IN [ok |-> cl = "", clause |-> cl, at |-> n, witness |-> FALSE]
 
+\* ---- adversarial answer streams (C08) ---------------------------------------------
+AdvVerdict(r) ==
+    LET ans == [j \in 1..Len(r.ans) |-> <<r.ans[j][1], r.ans[j][2]>>]
+        n == r.n
+        bad(c) == [ok |-> FALSE, clause |-> c, at |-> n, witness |-> FALSE]
+        good == [ok |-> TRUE, clause |-> "", at |-> 0, witness |-> FALSE]
+    IN IF n > AdvBound THEN bad("not-bounded")
+       ELSE IF r.out.exc \notin {"none", "DALISequenceError"} THEN bad("unrelated-exception:" \o r.out.exc)
+       ELSE IF r.seq = "QDTAdv" THEN
+            LET x == QDTExpected(ans) IN
+            IF QDTOutcomeOK(ans, r.out.exc, r.out.ret) THEN good
+            ELSE IF x.kind = "err" THEN bad("misbehaving-unit-accepted")
+            ELSE IF r.out.exc = "none" THEN bad("wrong-device-type-list")
+            ELSE bad("conforming-stream-rejected")
+       ELSE LET x == QGExpected(ans) IN
+            IF x.kind = "err" THEN (IF r.out.exc = "DALISequenceError" THEN good ELSE bad("misbehaving-unit-accepted"))
+            ELSE IF r.out.exc # "none" THEN bad("conforming-stream-rejected")
+            ELSE IF SetOfSeq(r.out.ret) = x.set THEN good ELSE bad("wrong-group-set")
+
 Judge == LET r == Recs[i]
-             v == Verdict(r)
+             v == IF r.seq \in {"QDTAdv", "QGAdv"} THEN AdvVerdict(r) ELSE Verdict(r)
          IN v.ok \/ PrintT(<<"REJECT", r.id, v.clause, v.at, v.witness>>)
 =============================================================================
